@@ -1,9 +1,11 @@
 package c05
 
 import (
+	"fmt"
 	"sort"
 	"sync"
 
+	"github.com/go-text/typesetting/font/opentype/tables"
 	ucd "github.com/go-text/typesetting/unicodedata"
 
 	"verifharness/internal/gen"
@@ -333,4 +335,119 @@ func MultiClusterCase(k, v int, sweepFaces [][]string) (Case, string) {
 	}
 	id, idx := SplitRef(ref)
 	return Case{Font: id, Index: idx, Text: text, Len: -1, Dir: pairDirs[dir], CL: cl, Flags: FBot | FEot, Src: "viii:multi-cluster-sweep:" + a.Name}, ref
+}
+
+// ---------------------------------------------------------------------------
+// (4) lookup sweep: texts drawn from the coverage tables of the face's own
+// GSUB / GPOS lookups. Random text rarely puts two glyphs of one rare lookup
+// (alternates of a `rand` feature, a contextual rule, a pair adjustment) next
+// to each other; here every lookup subtable contributes the runes that map to
+// its covered glyphs, alone, doubled, in pairs and in triples. The choice of
+// inputs reads the Go loader's tables; the verdict does not.
+
+// LookupSweep lists the lookup-driven cases of one face (at most cap, 0 = 600).
+func LookupSweep(p *Pair, faceIdx, cap int) []Case {
+	if p.Go == nil {
+		return nil
+	}
+	if cap <= 0 {
+		cap = 600
+	}
+	fi := p.Info
+	// reverse character map over the (capped) rune list of the face
+	rev := map[tables.GlyphID]rune{}
+	for _, r := range fi.Runes {
+		if g, ok := p.Go.NominalGlyph(r); ok && g != 0 {
+			if _, dup := rev[tables.GlyphID(g)]; !dup {
+				rev[tables.GlyphID(g)] = r
+			}
+		}
+	}
+	if len(rev) == 0 {
+		return nil
+	}
+	var gids []tables.GlyphID
+	for g := range rev {
+		gids = append(gids, g)
+	}
+	sort.Slice(gids, func(i, j int) bool { return gids[i] < gids[j] })
+	var covs []tables.Coverage
+	for _, l := range p.Go.GSUB.Lookups {
+		for _, st := range l.Subtables {
+			if cv := st.Cov(); cv != nil {
+				covs = append(covs, cv)
+			}
+		}
+	}
+	for _, l := range p.Go.GPOS.Lookups {
+		for _, st := range l.Subtables {
+			if cv := st.Cov(); cv != nil {
+				covs = append(covs, cv)
+			}
+		}
+	}
+	if len(covs) == 0 {
+		return nil
+	}
+	var out []Case
+	seen := map[string]bool{}
+	add := func(text []rune, feats []Feat, dir, cl int) {
+		k := fmt.Sprint(text, feats, dir, cl)
+		if seen[k] {
+			return
+		}
+		seen[k] = true
+		out = append(out, Case{Font: p.File.ID, Index: p.Index, Text: append([]rune(nil), text...), Len: -1, Dir: dir, CL: cl, Feats: feats, Flags: FBot | FEot, Src: "x:lookup-sweep"})
+	}
+	// every feature of the font as a user feature (alternates, stylistic sets, ...)
+	var all []Feat
+	for _, t := range fi.FeatTags {
+		if len(all) < 48 {
+			all = append(all, Feat{Tag: t, Value: 1, Start: 0, End: -1})
+		}
+	}
+	perCov := cap / len(covs)
+	if perCov < 6 {
+		perCov = 6
+	}
+	for ci, cv := range covs {
+		if len(out) >= cap {
+			// rotate: later faces start at later lookups so that the corpus as a whole covers them
+			break
+		}
+		cv = covs[(ci+faceIdx)%len(covs)]
+		// up to 4 covered glyphs that a rune maps to, spread over the coverage
+		var rs []rune
+		for _, g := range gids {
+			if _, ok := cv.Index(g); ok {
+				rs = append(rs, rev[g])
+			}
+		}
+		if len(rs) == 0 {
+			continue
+		}
+		if len(rs) > 4 {
+			rs = []rune{rs[0], rs[len(rs)/3], rs[2*len(rs)/3], rs[len(rs)-1]}
+		}
+		n0 := len(out)
+		for i, a := range rs {
+			add([]rune{a, a}, nil, 0, 0)
+			add([]rune{a, a, a}, nil, 0, 1)
+			b := rs[(i+1)%len(rs)]
+			add([]rune{a, b}, nil, 0, 0)
+			add([]rune{a, b, a}, nil, 0, 0)
+			add([]rune{a, ' ', b, b}, nil, 0, 1)
+			if len(all) > 0 {
+				add([]rune{a, b, a, b}, all, 0, 0)
+			}
+			if len(out)-n0 >= perCov {
+				break
+			}
+		}
+		if len(rs) >= 2 && len(out)-n0 < perCov+2 {
+			add([]rune{rs[0], rs[1], rs[0]}, nil, hbref.DirRTL, 0)
+			add([]rune{rs[0], rs[1]}, nil, hbref.DirTTB, 0)
+		}
+	}
+	return out
 }
